@@ -345,8 +345,9 @@ func genFieldPred(t *rapid.T, allowNe bool) *qref.FieldPred {
 	return p
 }
 
-func genQuery(t *rapid.T, mode string, mustExact bool) qref.Query {
-	q := qref.Query{Mst: mst}
+func genQuery(t *rapid.T, mode string, mustExact bool) (q qref.Query) {
+	// (named result: the deferred function below must modify the value that is returned)
+	q = qref.Query{Mst: mst}
 	defer func() {
 		// Aggregates without field filter and time bucket may be served from stored statistics, which the
 		// statement (C09) only promises to be exact when no (series,time) was written in more than one flush
@@ -356,6 +357,27 @@ func genQuery(t *rapid.T, mode string, mustExact bool) qref.Query {
 		}
 	}()
 	switch mode {
+	case "limit":
+		// LIMIT/OFFSET push-down: ungrouped raw selections over dense series spread over several files, time bounds on and
+		// next to stored rows, both directions
+		genTimeBounds(t, &q, false)
+		if rapid.Bool().Draw(t, "star") {
+			q.Star = true
+		} else {
+			mask := rapid.IntRange(1, 15).Draw(t, "selmask")
+			for i, n := range hist.FieldNames {
+				if mask&(1<<i) != 0 {
+					q.Sel = append(q.Sel, qref.Call{Field: n})
+				}
+			}
+		}
+		if rapid.IntRange(0, 3).Draw(t, "tagp1") == 0 {
+			q.Tag = &qref.TagPred{Atoms: []qref.TagAtom{{Key: "host", Op: rapid.SampledFrom([]string{"=", "!="}).Draw(t, "hop"), Val: rapid.SampledFrom([]string{"a", "b"}).Draw(t, "hv")}}}
+		}
+		q.Desc = rapid.IntRange(0, 2).Draw(t, "desc") == 0
+		q.Limit = rapid.IntRange(1, 9).Draw(t, "limit")
+		q.Offset = rapid.IntRange(0, 6).Draw(t, "offset")
+		// (OFFSET without LIMIT is documented as unsupported - "requires a LIMIT clause" - and is not generated)
 	case "raw":
 		genTimeBounds(t, &q, false)
 		if rapid.IntRange(0, 3).Draw(t, "star") == 0 {
@@ -525,6 +547,96 @@ func runCase(mode string) func(t *rapid.T, c *ev.Case) {
 				}
 			}
 		}
+		finish := func() {
+			if len(nt) > 0 {
+				keys := make([]string, 0, len(nt))
+				for k := range nt {
+					keys = append(keys, k)
+				}
+				sort.Strings(keys)
+				c.Nontrivial(map[string]any{"shapes": keys, "ops": c.Ops()})
+				var qs []string
+				for _, o := range c.Ops() {
+					if op, ok := o.(Op); ok && op.Kind == "query" && len(qs) < 8 {
+						qs = append(qs, op.Query.SQL())
+					}
+				}
+				c.Sample(map[string]any{"query_shapes": keys, "some_queries": qs})
+			}
+		}
+		if mode == "limit" {
+			// dense series in several flushed generations (each generation continues where the previous one ended, per series),
+			// so that a LIMIT window regularly starts inside one file and ends in a later one
+			g.noOverwrite = true
+			nser := rapid.IntRange(1, 3).Draw(t, "nser")
+			cursor := 0
+			ngen := rapid.IntRange(2, 4).Draw(t, "ngen")
+			for gi := 0; gi < ngen && cursor < 44; gi++ {
+				n := rapid.IntRange(2, min(12, 47-cursor)).Draw(t, "rows")
+				g.request++
+				var ps []hist.PointJ
+				for s := 0; s < nser; s++ {
+					if nser > 1 && rapid.IntRange(0, 4).Draw(t, "skipser") == 0 {
+						continue
+					}
+					for k := 0; k < n; k++ {
+						if rapid.IntRange(0, 7).Draw(t, "gap") == 0 {
+							continue
+						}
+						p := hist.PointJ{Mst: mst, Tags: tagSets[s], T: cursor + k, Fields: map[string]string{}}
+						mask := 15
+						if rapid.IntRange(0, 3).Draw(t, "partial") == 0 {
+							mask = rapid.IntRange(1, 15).Draw(t, "fieldmask")
+						}
+						for j, fn := range hist.FieldNames {
+							if mask&(1<<j) == 0 {
+								continue
+							}
+							small := rapid.IntRange(-4, 12).Draw(t, "val")
+							switch fn {
+							case "i":
+								p.Fields[fn] = fmt.Sprint(small)
+							case "f":
+								p.Fields[fn] = fmt.Sprintf("%g", float64(small)/4)
+							case "s":
+								p.Fields[fn] = fmt.Sprintf("v%d", small)
+							default:
+								p.Fields[fn] = fmt.Sprint(small%2 == 0)
+							}
+						}
+						g.written[fmt.Sprintf("%v|%d", p.Tags, p.T)] = g.request
+						ps = append(ps, p)
+					}
+				}
+				cursor += n
+				if len(ps) == 0 {
+					continue
+				}
+				w.exec(Op{Kind: "write", Points: ps})
+				if gi < ngen-1 || rapid.Bool().Draw(t, "flushlast") {
+					w.exec(Op{Kind: "flush"})
+					c.Class("generation-flushed")
+				} else {
+					c.Class("last-generation-in-memtable")
+				}
+				if gi > 0 {
+					queries(t, rapid.IntRange(2, 5).Draw(t, "qn"))
+				}
+			}
+			if rapid.IntRange(0, 2).Draw(t, "late") == 0 {
+				// out-of-order rows below the flushed data (free slots only)
+				w.exec(Op{Kind: "write", Points: g.batch(t, rapid.IntRange(1, 5).Draw(t, "nlate"), true)})
+				w.exec(Op{Kind: "flush"})
+				c.Class("out-of-order-file")
+				queries(t, rapid.IntRange(2, 4).Draw(t, "ql"))
+			}
+			if rapid.IntRange(0, 2).Draw(t, "reorg") == 0 {
+				w.exec(Op{Kind: "reorg", Cmd: "all"})
+				queries(t, rapid.IntRange(2, 4).Draw(t, "q3"))
+			}
+			finish()
+			return
+		}
 		// phase 1: memtable only
 		for i := 0; i < rapid.IntRange(1, 3).Draw(t, "w1"); i++ {
 			w.exec(Op{Kind: "write", Points: g.batch(t, rapid.IntRange(4, 20).Draw(t, "n"), false)})
@@ -545,21 +657,7 @@ func runCase(mode string) func(t *rapid.T, c *ev.Case) {
 			w.exec(Op{Kind: "reorg", Cmd: "all"})
 			queries(t, rapid.IntRange(2, 5).Draw(t, "q3"))
 		}
-		if len(nt) > 0 {
-			keys := make([]string, 0, len(nt))
-			for k := range nt {
-				keys = append(keys, k)
-			}
-			sort.Strings(keys)
-			c.Nontrivial(map[string]any{"shapes": keys, "ops": c.Ops()})
-			var qs []string
-			for _, o := range c.Ops() {
-				if op, ok := o.(Op); ok && op.Kind == "query" && len(qs) < 8 {
-					qs = append(qs, op.Query.SQL())
-				}
-			}
-			c.Sample(map[string]any{"query_shapes": keys, "some_queries": qs})
-		}
+		finish()
 	}
 }
 
@@ -573,6 +671,7 @@ func shapeOf(q qref.Query) string {
 
 func TestRawSelections(t *testing.T) { rapid.Check(t, ev.Prop(prop, "raw_selections", runCase("raw"))) }
 func TestAggregates(t *testing.T)    { rapid.Check(t, ev.Prop(prop, "aggregates", runCase("agg"))) }
+func TestLimitLayouts(t *testing.T)  { rapid.Check(t, ev.Prop(prop, "limit_layouts", runCase("limit"))) }
 func TestTimeBuckets(t *testing.T)   { rapid.Check(t, ev.Prop(prop, "time_buckets", runCase("bucket"))) }
 
 type violation struct{ msg string }
